@@ -46,11 +46,16 @@ def gen(seed: int, tier: str) -> dict[str, Any]:
     rng = random.Random(seed)
     n = rng.choice([1, 3, 6, 12, 25])
     rate = rng.choice([0, 0, 1, 5, 20, 100])
+    big = rng.random() < 0.06
+    if big:
+        # a large backlog: many telegrams queued within a moment, more than the sender gets out in that time
+        n = rng.choice([40, 70, 130, 300])
+        rate = rng.choice([0, 20, 100, 100])
     ops: list[dict[str, Any]] = []
     t = 0.0
     clean = rng.random() < 0.2
     for i in range(n):
-        t += rng.choice([0.0, 0.0, 0.001, 0.02, 0.3, 1.0])
+        t += rng.choice([0.0, 0.0, 0.0, 0.001]) if big else rng.choice([0.0, 0.0, 0.001, 0.02, 0.3, 1.0])
         kind = rng.choices(["out", "in", "internal_out", "internal_in"], [6, 3, 2, 1])[0]
         op: dict[str, Any] = {"t": round(t, 6), "op": kind, "id": i + 1, "ga": rng.randrange(4)}
         if kind == "out" and not clean:
